@@ -73,8 +73,33 @@ class Ideal:
             H = [to_poly(h, Rg, gens) for h in self.hyps]
             if self.char2:
                 H = [Rg.ground_new(K.convert(2))] + H
+                from sympy import GF
+                R2 = ring(self.order, GF(2), lex)[0]
+                self._ring2 = (R2, [self._to2(h, R2) for h in H[1:]])
             self._ring = (Rg, gens, K, H)
         return self._ring
+
+    @staticmethod
+    def _to2(P, R2):
+        out = R2.zero
+        for mon, c in P.terms():
+            if c.denominator != 1:
+                raise ValueError("non-integer coefficient in characteristic 2")
+            if int(c) % 2:
+                out += R2.term_new(mon, R2.domain.one)
+        return out
+
+    def nf2(self, t):
+        """characteristic 2: (remainder over GF(2), GF(2) cofactors)"""
+        F = self.poly(t)
+        Rg, gens, K, H = self.ring()
+        R2, H2 = self._ring2
+        F2 = self._to2(F, R2)
+        if H2:
+            q, r = F2.div(H2)
+        else:
+            q, r = [], F2
+        return F, q, r
 
     def poly(self, t):
         self.extended(R.symbols([t] + self.hyps))
@@ -86,7 +111,19 @@ class Ideal:
         F = self.poly(t)
         Rg, gens, K, H = self.ring()
         if self.char2:
-            return _div_char2(F, H, Rg)
+            F, q2, r2 = self.nf2(t)
+            # lift: cofactors with 0/1 coefficients; c0 = (F - sum c_i h_i - r) / 2
+            cof = [_lift2(qi, Rg) for qi in q2]
+            rem = _lift2(r2, Rg)
+            resid = F - rem
+            for ci, hi in zip(cof, H[1:]):
+                resid = resid - ci * hi
+            c0 = Rg.zero
+            for mon, c in resid.terms():
+                if c.denominator != 1 or int(c) % 2:
+                    raise ValueError("characteristic-2 lifting failed")
+                c0 += Rg.term_new(mon, Rg.domain.convert(int(c) // 2))
+            return [c0] + cof, rem
         if not H:
             return [], F
         q, r = F.div(H)
@@ -114,6 +151,14 @@ def to_poly(t, Rg, gens):
             raise ValueError("to_poly: unresolved " + x.op)
         memo[x.id] = r
     return memo[t.id]
+
+
+def _lift2(P2, Rg):
+    out = Rg.zero
+    for mon, c in P2.terms():
+        if int(c) % 2:
+            out += Rg.term_new(mon, Rg.domain.one)
+    return out
 
 
 def _div_char2(F, H, Rg):
@@ -284,7 +329,58 @@ def factor_nonvanishing(t, ideal, nz, timeout_ms=60000):
     Rg, gens, K, H = ideal.ring()
     r = ideal.nf(t)[1]
     if ideal.char2:
-        return Result("unknown", time.time() - t0, "factoring in char 2 not supported", queries=0), ""
+        import itertools
+        R2, H2 = ideal._ring2
+        target = ideal.nf2(t)[2]
+        cands = []
+        for n in nz:
+            try:
+                cands.append((n, ideal.nf2(n)[2]))
+            except Exception:
+                pass
+        R2, H2 = ideal._ring2
+        target = ideal.nf2(t)[2]
+        cands = [(n, ideal._to2(ideal.poly(n), R2)) for n, _ in cands]
+        # greedy exact division by the candidates first, then a small search
+        pre = []
+        changed = True
+        while changed and target != 1:
+            changed = False
+            for i, (n, cp) in enumerate(cands):
+                if cp == 1 or cp == 0:
+                    continue
+                q_, r_ = target.div([cp])
+                if r_ == 0:
+                    target = q_[0]
+                    pre.append(i)
+                    changed = True
+        found = None
+        if target == 1:
+            found = ()
+        for total in range(1, 10):
+            if found is not None:
+                break
+            for combo in itertools.combinations_with_replacement(range(len(cands)), total):
+                cp = R2.one
+                for i in combo:
+                    cp = cp * cands[i][1]
+                if H2:
+                    cp = cp.div(H2)[1]
+                if cp == target:
+                    found = combo
+                    break
+        if found is not None:
+            found = tuple(pre) + tuple(found)
+        if found is None:
+            return Result("nocert", time.time() - t0,
+                          "not a product of declared non-vanishing quantities (char 2): %s" % str(target.as_expr())[:200],
+                          queries=0), ""
+        prod = R.ONE
+        for i in found:
+            prod = R.mul(prod, cands[i][0])
+        res = prove_zero(R.sub(t, prod), ideal, timeout_ms)
+        res.seconds = time.time() - t0
+        return res, " * ".join("(%s)" % (cands[i][0],) for i in found)
     c, facs = r.factor_list()
     prod = R.const(Fraction(int(c.numerator), int(c.denominator)))
     desc = [str(c)]
